@@ -38,12 +38,17 @@ func zzQuietConfig() []Config {
 
 // zzH_Stress is never run by the engine. It is the native confirmation of
 // discipline candidates (C05/C06): goroutines share one parsed function and
-// one document while others parse; run under the race detector.
+// the documents of the fixture while others parse; run under the race
+// detector. The concurrent phase comes first (so that one-time writes such as
+// caches and growing tables happen concurrently); the sequential baseline is
+// taken afterwards from a freshly parsed function.
 func zzH_Stress() {
 	path := zzPath("path")
 	cfg := zzQuietConfig()
-	// every document of the fixture takes part (a history's documents may differ in what they trigger)
 	var docs []interface{}
+	if zzParam("json") != "" {
+		docs = append(docs, zzJSON("json"), zzJSON("json"))
+	}
 	for _, name := range []string{"doc", "doc1", "doc2", "doc3"} {
 		if _, ok := zzFx.Docs[name]; ok {
 			docs = append(docs, zzDoc(name))
@@ -52,7 +57,6 @@ func zzH_Stress() {
 	if len(docs) == 0 {
 		docs = append(docs, nil)
 	}
-	doc := docs[0]
 	f, err := Parse(path, cfg...)
 	if err != nil {
 		// a path that does not parse: hammer Parse itself
@@ -70,55 +74,62 @@ func zzH_Stress() {
 		wg.Wait()
 		return
 	}
-	type outcome struct {
-		r []interface{}
-		e error
+	render := func(r []interface{}, e error) string {
+		if e != nil {
+			return "E:" + zzErrKind(e)
+		}
+		out := make([]interface{}, len(r))
+		for k := range r {
+			if a, isAcc := r[k].(Accessor); isAcc {
+				out[k] = a.Get()
+			} else {
+				out[k] = r[k]
+			}
+		}
+		return zzRender(out)
 	}
-	var base []outcome
-	for _, d := range docs {
-		r, e := f(d)
-		base = append(base, outcome{r, e})
-	}
-	_ = doc
-	var mu sync.Mutex
-	diffs := 0
+	const workers = 8
+	seen := make([][]string, workers) // per goroutine: rendered results, tagged with the document index
 	var wg sync.WaitGroup
-	for g := 0; g < 8; g++ {
+	for g := 0; g < workers; g++ {
 		wg.Add(1)
 		go func(g int) {
 			defer wg.Done()
-			for i := 0; i < 300; i++ {
+			for i := 0; i < 200; i++ {
 				switch g % 4 {
-				case 0, 1:
+				case 0, 1, 2:
 					di := (i + g) % len(docs)
 					r, e := f(docs[di])
-					r0, e0 := base[di].r, base[di].e
-					bad := (e == nil) != (e0 == nil) || len(r) != len(r0)
-					if !bad && e == nil {
-						for k := range r {
-							if _, isAcc := r[k].(Accessor); isAcc {
-								continue
-							}
-							if !zzSame(r[k], r0[k]) {
-								bad = true
-							}
-						}
+					if i%8 == 0 || i < 4 {
+						seen[g] = append(seen[g], string(rune('0'+di))+render(r, e))
 					}
-					if bad {
-						mu.Lock()
-						diffs++
-						mu.Unlock()
-					}
-				case 2:
+				case 3:
 					Parse(path, cfg...)
 					Parse(`$..[?(@.a > 1 && $.b != 'x')]`)
-				case 3:
 					Retrieve(`$..*`, map[string]interface{}{"k": []interface{}{1.0, map[string]interface{}{"z": 2.0}}, "j": 3.0})
-					Retrieve(`$[?(@.a == 1)]`, []interface{}{map[string]interface{}{"a": 1.0}, 2.0})
 				}
 			}
 		}(g)
 	}
 	wg.Wait()
+	// sequential baseline from a freshly parsed function
+	f2, err2 := Parse(path, cfg...)
+	zzAssert(err2 == nil, "concurrent-result-equals-sequential")
+	if err2 != nil {
+		return
+	}
+	base := make([]string, len(docs))
+	for di := range docs {
+		r, e := f2(docs[di])
+		base[di] = string(rune('0'+di)) + render(r, e)
+	}
+	diffs := 0
+	for g := range seen {
+		for _, s := range seen[g] {
+			if s != base[int(s[0]-'0')] {
+				diffs++
+			}
+		}
+	}
 	zzAssert(diffs == 0, "concurrent-result-equals-sequential")
 }
